@@ -90,7 +90,7 @@ def gen_cases(ctx):
     yield mk("degenerate", np.array([[1., 2, 3], [0, 1, 0], [0, 0, 1]]), np.array([[1., 2], [0, 1], [0, 0]]), False,
              corpus="shape", deg="shape")
     yield mk("degenerate", np.array([[-1., 1, 1], [1, 1, 0], [1, 0, -2]]), np.array([[0., 0, 0], [1, -2, -3], [0, 0, 0]]), False,
-             corpus="F12: axis-y input was not refused before fix ec73582 (absolute eps in the rank test)", deg="axis")
+             corpus="F12: axis-y input was not refused before the F12 fix (absolute eps in the rank test)", deg="axis")
     yield mk("degenerate", np.repeat(np.array([[0.1], [0.2], [0.3]]), 7, axis=1),
              np.array([[1., 2, 3, 4, 0, 1, 5], [0, 1, 0, 2, 7, 1, 1], [1, 1, 0, 0, 2, 3, 9]]), False,
              corpus="coincident non-dyadic x (float mean inexact): needs the absolute floor of the rank test", deg="coincident")
@@ -588,11 +588,13 @@ def evaluate(ctx, cases):
 OPEN = ["numpy.linalg.svd is not modelled: the theorems start from the certificate umeCert 0; the driver checks umeCert with "
         "eps = 2^-30 (relative) on evo's float output; 'certificate up to eps => optimal up to O(eps)' is argued, not formalised",
         "refusal of nearly rank-deficient inputs (collinear off-axis, n <= 2) depends on float rounding of the singular values "
-        "against the relative threshold 3*eps*d_max: counted as skipped, not compared",
-        "umeyama_noise_free is proved for point sets whose scatter matrix is non-singular (rank 3); planar (rank-2) recovery "
-        "is only tested by the oracle",
-        "equivariance: proved as the residual identity under similarity maps and permutations (minimiser sets correspond); "
-        "uniqueness of the minimiser is only proved in the noise-free rank-3 case"]
+        "against the threshold max(eps, 3*eps*d_max): counted as skipped, not compared",
+        "equivariance (umeyama_equivariant_partial): proved as the residual identity under similarity maps of both sets "
+        "and invariance under permutations (so minimiser sets correspond under the composition); that the returned "
+        "result itself changes by the composition needs uniqueness of the minimiser, proved only for noise-free data "
+        "(umeyama_noise_free, three non-collinear points); on noisy data it is tested by the oracle",
+        "competitors in the optimality theorems are rational (the Q instance) or from any ordered field when the "
+        "certificate is given as a proposition (umeyama_optimal_field); competitors with scale c' < 0 are outside the class"]
 
 
 def check(ctx):
